@@ -113,3 +113,137 @@ Proof.
   destruct (conc_cap c progs sched' Hv) as [C _].
   split; [exact A|]. split; [exact B|]. intros Hc. apply C. lia.
 Qed.
+
+(* ================================================================= gauges: an atomic register per series *)
+(* the emission that thread th lands in a series with its next step, if any *)
+Definition landing (s : shared) (th : thread) : option (nat * (emode * Z)) :=
+  match t_pc th with
+  | PE1 id m d => match get_handle s id with Some _ => Some (id, (m, d)) | None => None end
+  | _ => None
+  end.
+(* all landings of a run, in the order in which they happen *)
+Fixpoint ltrace (c : cfg) (x : sys) (sched : list nat) : list (nat * (emode * Z)) :=
+  match sched with
+  | [] => []
+  | i :: r =>
+      (match nth_error (ths x) i with
+       | Some th => if finished th then [] else match landing (sh x) th with Some e => [e] | None => [] end
+       | None => []
+       end) ++ ltrace c (sys_step c x i) r
+  end.
+Definition on_id (id : nat) (l : list (nat * (emode * Z))) : list (emode * Z) :=
+  map snd (filter (fun e => Nat.eqb (fst e) id) l).
+Definition gapply (v : Z) (e : emode * Z) : Z := match fst e with EAdd => v + snd e | ESet => snd e end.
+Definition gval (s : shared) (id : nat) : Z := match get_handle s id with Some h => v_main (h_val h) | None => 0 end.
+
+Lemma gval_upd s id i f : (forall h, v_main (h_val (f h)) = v_main (h_val h)) ->
+  gval (set_hs s (upd_nth (hs s) i f)) id = gval s id.
+Proof.
+  intros Hf. unfold gval, get_handle. simpl. rewrite nth_upd. destruct (Nat.eqb i id); [|reflexivity].
+  destruct (nth_error (hs s) id); simpl; [apply Hf | reflexivity].
+Qed.
+Lemma gval_publish c s t id : gval (fst (publish c s t)) id = gval s id.
+Proof.
+  unfold gval, get_handle, publish. simpl. destruct (Nat.lt_ge_cases id (length (hs s))).
+  - rewrite nth_error_app1 by assumption. reflexivity.
+  - rewrite nth_error_app2 by assumption. assert (nth_error (hs s) id = None) as -> by (apply nth_error_None; lia).
+    destruct (id - length (hs s))%nat as [|k]; simpl; [reflexivity | destruct k; reflexivity].
+Qed.
+
+Lemma tstep_gval c s th s' th' id :
+  c_kind c = KGauge -> tstep c s th = (s', th') ->
+  gval s' id = match landing s th with
+               | Some (i, e) => if Nat.eqb i id then gapply (gval s id) e else gval s id
+               | None => gval s id
+               end.
+Proof.
+  intros Hk St. unfold tstep in St. unfold landing.
+  destruct (t_pc th) eqn:Epc;
+    try (destruct (t_prog th) as [|o rest] eqn:P; [|unfold start_op in St; destruct o]);
+    repeat match type of St with
+           | context [let (_, _) := publish ?c ?s ?t in _] => destruct (publish c s t) eqn:?
+           | context [match ?x with _ => _ end] => destruct x eqn:?
+           | context [if ?x then _ else _] => destruct x eqn:?
+           end; inversion St; subst; clear St;
+    try reflexivity;
+    try (rewrite gval_upd by reflexivity; reflexivity);
+    try (match goal with E : publish ?c ?s ?t = (?a, _) |- context [gval ?a _] =>
+           replace a with (fst (publish c s t)) by (rewrite E; reflexivity); rewrite gval_publish; reflexivity end).
+  (* PE1 with the handle present: the atomic update *)
+  all: try (unfold gval, get_handle in *; simpl; rewrite nth_upd;
+            destruct (Nat.eqb_spec id0 id); [subst;
+              match goal with H : nth_error (hs ?s) ?i = Some _ |- _ => rewrite H end; simpl;
+              unfold apply_emit, gapply; rewrite Hk; simpl; destruct m; reflexivity | reflexivity]).
+  all: try (apply (gval_upd (set_map s (map_delete (smap s) (hash_tuple t))) id id0 retire); reflexivity).
+Qed.
+
+Lemma run_gval c sched : forall x id, c_kind c = KGauge ->
+  gval (sh (run_sched c x sched)) id = fold_left gapply (on_id id (ltrace c x sched)) (gval (sh x) id).
+Proof.
+  induction sched as [|i r IH]; intros x id Hk; simpl; [reflexivity|].
+  rewrite IH by assumption. unfold on_id. rewrite filter_app, map_app, fold_left_app. f_equal.
+  unfold sys_step. destruct (nth_error (ths x) i) as [th|]; [|reflexivity].
+  destruct (finished th); [reflexivity|]. destruct (tstep c (sh x) th) as [s' th'] eqn:St. simpl.
+  rewrite (tstep_gval c _ _ _ _ id Hk St). destruct (landing (sh x) th) as [[j e]|]; simpl; [|reflexivity].
+  destruct (Nat.eqb j id); reflexivity.
+Qed.
+
+(* A gauge series is an atomic register: for EVERY schedule (either variant) its value is the left fold of the Set/Add
+   operations that landed in it, in the order of their landing steps, starting from 0. *)
+Lemma gauge_register c progs sched id :
+  c_kind c = KGauge ->
+  gval (sh (run_sched c (sys0 progs) sched)) id = fold_left gapply (on_id id (ltrace c (sys0 progs) sched)) 0.
+Proof. intros Hk. rewrite (run_gval c sched (sys0 progs) id Hk). f_equal. unfold gval, get_handle; simpl. destruct id; reflexivity. Qed.
+
+(* last writer wins among concurrent Sets: the value is the last landed Set plus the Adds landed after it *)
+Lemma gauge_last_set l1 d l2 v0 :
+  Forall (fun e => fst e = EAdd) l2 ->
+  fold_left gapply (l1 ++ (ESet, d) :: l2) v0 = d + fold_right (fun e a => snd e + a) 0 l2.
+Proof.
+  intros H. rewrite fold_left_app. simpl. unfold gapply at 2. simpl.
+  generalize d. clear l1 v0 d. induction H as [|[m x] l Hm Hl IH]; intros d; simpl; [lia|].
+  simpl in Hm; subst m. unfold gapply at 2; simpl. rewrite IH. lia.
+Qed.
+(* Add/Sub conservation: if only Adds landed, the value is their sum *)
+Lemma gauge_adds l : Forall (fun e => fst e = EAdd) l -> fold_left gapply l 0 = fold_right (fun e a => snd e + a) 0 l.
+Proof.
+  intros H. assert (G : forall v, fold_left gapply l v = v + fold_right (fun e a => snd e + a) 0 l).
+  { induction H as [|[m x] l Hm Hl IH]; intros v; simpl; [lia|]. simpl in Hm; subst m. unfold gapply at 2; simpl. rewrite IH. lia. }
+  rewrite G. lia.
+Qed.
+
+(* ================================================================= tuple identity on every path (any kind) *)
+Lemma sys_step_inv2 c x i : c_variant c = Repaired -> Inv2 c x -> Inv2 c (sys_step c x i).
+Proof.
+  intros Hv [HI HT]. pose proof (sys_step_inv c x i Hv HI) as HI'.
+  unfold sys_step in *. destruct (nth_error (ths x) i) as [th|] eqn:G; [|constructor; assumption].
+  destruct (finished th); [constructor; assumption|]. destruct (tstep c (sh x) th) as [s' th'] eqn:St.
+  destruct HI as [HS HP HC HK].
+  assert (Hpc : pc_ok (sh x) (t_pc th)) by (rewrite Forall_forall in HP; apply HP; eapply nth_error_In; eauto).
+  assert (Hti : TI c (sh x) th) by (rewrite Forall_forall in HT; apply HT; eapply nth_error_In; eauto).
+  pose proof (tsum_ge fover _ _ _ over_nonneg G) as G2.
+  assert (E : ext (sh x) s').
+  { destruct (tstep_inv c (sh x) th (tsum fcontrib (ths x) - fcontrib th) (tsum fover (ths x) - fover th) s' th')
+      as [_ [_ [_ [_ E]]]]; auto.
+    - lia.
+    - change (contrib (t_pc th)) with (fcontrib th). lia.
+    - change (over (t_pc th)) with (fover th). intros Hc. specialize (HK Hc). lia. }
+  constructor; [exact HI'|]. simpl. apply Forall_upd.
+  - eapply Forall_impl; [|exact HT]. intros a Ha. eapply TI_ext; eauto.
+  - eapply tstep_TI; eauto.
+Qed.
+
+(* every series handle a client holds — whether it came from the Load fast path, from its own LoadOrStore or from somebody
+   else's entry found by LoadOrStore — carries exactly the tuple of the WithLabelValues call that returned it *)
+Lemma conc_handle_tuple c progs sched :
+  c_variant c = Repaired -> wf_progs c progs = true ->
+  let x := run_sched c (sys0 progs) sched in
+  forall i th k id, nth_error (ths x) i = Some th -> nth_error (t_slots th) k = Some (RH id) ->
+  exists h, get_handle (sh x) id = Some h /\ nth_error (t_asked th) k = Some (h_tuple h).
+Proof.
+  intros Hv W x. assert (H : Inv2 c x).
+  { unfold x. generalize (Inv2_0 c progs W). generalize (sys0 progs). induction sched as [|j r IH]; intros y Hy; simpl; [exact Hy|].
+    apply IH. apply sys_step_inv2; assumption. }
+  intros i th k id G S. destruct H as [_ HT]. rewrite Forall_forall in HT.
+  destruct (ti_slots _ _ _ (HT th (nth_error_In _ _ G)) k id S) as [h [A B]]. exists h. auto.
+Qed.
